@@ -955,13 +955,60 @@ pub fn step_adm(sim: &mut Sim, ctx: &mut Ctx, adm: &AdmSwarm) -> Option<Tx> {
             if holders.is_empty() {
                 return None;
             }
-            let (ui, ma, bk) = *ctx.rng.pick(&holders);
+            let owing: Vec<(usize, Pubkey, Pubkey)> = holders
+                .iter()
+                .filter(|(_, ma, _)| {
+                    model::account_of(&sim.store, ma)
+                        .map(|a| active_balances(&a).iter().any(|b| i80(b.liability_shares) >= I80F48::ONE))
+                        .unwrap_or(false)
+                })
+                .cloned()
+                .collect();
+            let want_owing = !owing.is_empty() && ctx.rng.chance(1, 2);
+            let (ui, ma, bk) = if want_owing { *ctx.rng.pick(&owing) } else { *ctx.rng.pick(&holders) };
             let cbank = model::bank_of(&sim.store, &bk)?;
             let view = crate::refm::read_oracle(&sim.store, &cbank, sim.clock).ok()?;
             use num_traits::ToPrimitive;
             let total = model::q_w(cbank.total_asset_shares) * model::q_w(cbank.asset_share_value) * &view.ema.price
                 / model::pow10(cbank.mint_decimals as u32);
             let dollars = total.floor().to_integer().to_u64().unwrap_or(u64::MAX / 4).max(2);
+            // variant: a cap of one dollar on EVERY collateral bank of a holder that owes
+            // something, then the risk admin tries to settle that holder's debt as bad debt - the
+            // cap discounts borrowing power only, the holder is as solvent as before
+            if want_owing && ctx.rng.chance(2, 3) {
+                if let Some(acc) = model::account_of(&sim.store, &ma) {
+                    let bals = active_balances(&acc);
+                    if let Some(debt) = bals.iter().find(|b| i80(b.liability_shares) >= I80F48::ONE).cloned() {
+                        if let Some(dinfo) = ctx.world.bank_info(&debt.bank_pk).cloned() {
+                            sim.stats.fault("drill_init_value_cap_one_dollar_then_bankruptcy_attempt");
+                            for c in bals.iter().filter(|b| i80(b.asset_shares) >= I80F48::ONE) {
+                                // somebody else deposits as well, so that the holder's share of the
+                                // bank (what a wrongly discounted valuation would leave) is small
+                                if let Some(cinfo) = ctx.world.bank_info(&c.bank_pk).cloned() {
+                                    let others: Vec<crate::world::UserInfo> = ctx.world.users.iter().enumerate().filter(|(i, _)| *i != ui).map(|(_, u)| u.clone()).collect();
+                                    if let Some(o) = others.first() {
+                                        if let (Some(oa), Some(ta)) = (o.maccounts.iter().find(|(g2, _)| *g2 == gi).map(|(_, m)| *m), o.tokens.get(&cinfo.keys.mint).cloned()) {
+                                            let amt = token_balance(&sim.store, &ta) / 2;
+                                            if amt > 0 {
+                                                sim.apply(Event::Tx(Tx::one("user", ix::deposit(&cinfo.keys, oa, o.authority, ta, amt, None))));
+                                            }
+                                        }
+                                    }
+                                }
+                                sim.apply(Event::Tx(Tx::one(
+                                    "limit_admin",
+                                    ix::configure_bank_limits_only(g.key, g.admins.limit, c.bank_pk, None, None, Some(1)),
+                                )));
+                                if sim.violated() && sim.stop_on_violation {
+                                    return None;
+                                }
+                            }
+                            let rm = crate::world::risk_metas(&sim.store, &ma, None, None);
+                            return Some(Tx::one("bankruptcy", ix::handle_bankruptcy(&dinfo.keys, g.admins.risk, ma, rm)));
+                        }
+                    }
+                }
+            }
             let cap = match ctx.rng.below(4) {
                 0 => dollars / 2,
                 1 => dollars.saturating_sub(1),
@@ -1373,6 +1420,11 @@ pub fn drill_kill_bank(sim: &mut Sim, ctx: &mut Ctx) {
             sim.stats.fault("drill_bank_killed_with_second_debtor");
             sim.apply(Event::Tx(Tx::one("user", ix::repay(&y.keys, acc, auth, ty, 1, None))));
             sim.apply(Event::Tx(Tx::one("user", ix::repay(&y.keys, acc, auth, ty, 1, Some(true)))));
+            // ... or simply tries to drop the position that carries the debt
+            sim.apply(Event::Tx(Tx::one("user", ix::close_balance(g.key, acc, auth, y.keys.bank))));
+            if sim.violated() && sim.stop_on_violation {
+                return;
+            }
         }
         let rm = crate::world::risk_metas(&sim.store, &l_acc, None, None);
         sim.apply(Event::Tx(Tx::one("user", ix::withdraw(&y.keys, l_acc, lender.authority, l_ta, 1, None, rm))));
